@@ -17,10 +17,16 @@ type Monitor[C Conn] struct {
 	lastActivity atomic.Value
 	duration     time.Duration
 	onInactive   OnInactiveFunc[C]
+	// onActivity, if set, is called for every received message. It is set only
+	// during construction, before the monitor is shared.
+	onActivity func()
 }
 
 func (m *Monitor[C]) Notify() {
 	m.lastActivity.Store(time.Now())
+	if m.onActivity != nil {
+		m.onActivity()
+	}
 }
 
 func (m *Monitor[C]) LastActivity() time.Time {
